@@ -1,4 +1,22 @@
 """C16 - WebSocket close handshake is orderly and reported exactly once.
+
+MC : specs/ws/WsClose.tla - one endpoint against an arbitrary peer: local close, peer close frames
+     (none / 1-byte / code / code+reason / invalid UTF-8 reason), peer disconnect, messages (with an
+     asynchronous on_message suspending the receive loop and input queueing up), pongs, the 5 s
+     closing timeout and the keep-alive ping timers on virtual time.  Invariants / action
+     properties / liveness: AtMostOneCloseFrame, NoDataAfterClose, EchoesPeerCode,
+     BothClosedTearsDown, ClosedIsNotified, NotifiedAtMostOnce / OnceFinal / WithPeerCode,
+     WriteAfterCloseFails, CloseTerminates, EventuallyNotified.
+S2C: every action sequence up to length L replayed on a real WebSocketHandler (server) and a real
+     WebSocketClientConnection (client) over MemStreams, the harness owning the virtual clock; the
+     projection (close frames written and their code, data after close, pings, stream closed,
+     close notifications with code / reason, deliveries, exception of write_message) is compared
+     after every step; after the path all timers are run out and quiescence is checked.
+C2S: seeded random scenarios recorded from real endpoints, validated by TLC (Trace_WsClose).
+
+Binding demonstrated in a scratch worktree (see notes/ws.md): dropping the echo of the peer's
+code, a 50 s closing timeout, and a handler write_message without the is_closing() check are
+each reported.
 """
 import hashlib
 import random
@@ -155,18 +173,28 @@ def run(ctx):
                              "AsyncOnMessageReturns", "Advance"])
     ctx._phase("mc", t0)
     t0 = time.time()
-    paths = ctx.gen_paths("ws", "Gen_WsClose", "Gen_WsClose.cfg",
-                          overrides=ctx.pick({"L": 4, "MaxMsgs": 1}, {"L": 6, "MaxMsgs": 2, "PeerCloses": "McPeerCloses", "LocalCloses": "McLocalCloses"}))
+    paths = ctx.gen_paths("ws", "Gen_WsClose", ctx.pick("Gen_WsClose.cfg", "Gen_WsCloseFull.cfg"),
+                          overrides=ctx.pick({"L": 4, "MaxMsgs": 1}, {"L": 5, "MaxMsgs": 2}))
     ctx._phase("gen", t0)
     t0 = time.time()
     ctx.replay(expand(paths, ctx.seed), replayer)
     ctx._phase("s2c", t0)
     ctx.cov["exhaustive"] = True
+    # long seeded TLC walks (all close variants, two messages)
+    t0 = time.time()
+    sims = ctx.sim_paths("ws", "Gen_WsClose", "Gen_WsCloseFull.cfg", num=ctx.pick(150, 3000), depth=14,
+                         overrides={"L": 14, "MaxMsgs": 2})
+    ctx.replay(expand(sims, ctx.seed), replayer, label="s2c-sim")
+    ctx._phase("s2c-sim", t0)
     t0 = time.time()
     n = ctx.pick(300, 5000)
     traces = framework.pool_map(random_trace, [(i + 1, ctx.seed * 1000003 + i) for i in range(n)])
     ctx.validate("ws", "Trace_WsClose", "Trace_WsClose.cfg", traces, sig_fn=trace_sig)
     ctx._phase("c2s", t0)
+    ctx.cov["trusted_base"] += ["harness/ws_driver.py frame plumbing", "virtual clock: env.advance to the specification's next deadline"]
+    ctx.cov["rule"] = ("paths: every sequence of close / write / msg / pong / peerclose / eof / resume / advance of length <= %d per "
+                       "(role, ping, async) configuration, plus TLC simulation walks of depth 14 and random recorded scenarios; "
+                       "distinct = distinct (config, segmentation variant, action sequence)" % ctx.pick(4, 5))
 
 
 def replay(ctx, rec):
@@ -175,4 +203,8 @@ def replay(ctx, rec):
         r = replayer(d["extra"], d["path"])
         print("replay:", "diverges " + framework.jdump(r) if r else "follows the specification")
         return 1 if r else 0
-    return 0
+    t = d["trace"]
+    v = ctx.validate("ws", "Trace_WsClose", "Trace_WsClose.cfg", [t], sig_fn=trace_sig)
+    bad = v[t["id"]]
+    print("replay:", "trace rejected at event %s" % bad["at"] if bad else "trace accepted by the specification")
+    return 1 if bad else 0
